@@ -567,21 +567,33 @@ func (s *Sched) ObjID(o any) int {
 	return id
 }
 
+// callerSite returns "inner<outer": the innermost fs_db (or dependency) function of the pending
+// operation and the fs_db function that called it.
 func callerSite() string {
-	pcs := make([]uintptr, 24)
+	pcs := make([]uintptr, 32)
 	n := runtime.Callers(3, pcs)
 	frames := runtime.CallersFrames(pcs[:n])
+	var got []string
 	for {
 		fr, more := frames.Next()
 		fn := fr.Function
 		if fn != "" && !strings.Contains(fn, "/verifrt/") && !strings.HasPrefix(fn, "runtime.") {
 			fn = strings.TrimPrefix(fn, "github.com/glebziz/fs_db/")
-			return fn
+			if i := strings.Index(fn, "[go.shape"); i >= 0 {
+				if j := strings.LastIndex(fn, "]"); j > i {
+					fn = fn[:i] + "[...]" + fn[j+1:]
+				}
+			}
+			got = append(got, fn)
+			if len(got) == 2 {
+				break
+			}
 		}
 		if !more {
-			return ""
+			break
 		}
 	}
+	return strings.Join(got, "<")
 }
 
 // ---------------------------------------------------------------------------------------------
